@@ -20,7 +20,11 @@ from ..oracles import cf_fscm as S
 PROP = "C18"
 RULE = ("random ADMGs with 1-5 nodes (quick: mostly <=4) x conjunctions of 1-4 counterfactual events over <=3 "
         "counterfactual worlds plus the factual world (shared and distinct subscripts, x / x' values, self-interventions, "
-        "the same variable in several worlds with equal or different values); the paper examples (Shpitser-Pearl "
+        "the same variable in several worlds with equal or different values); structured shapes (150 + 150 + 150 + 120 + 120 per quick run): a parent "
+        "observed factually and intervened on in a world (shared_parent), two copies of an untouched variable (two_copies), 2-3 worlds that "
+        "agree on do(ancestor) and differ in irrelevant interventions so that copies merge with EACH OTHER in the world-pair loop "
+        "(world_family), a parent intervened in one world and observed in another (mirrored_parent), both copies of a parent observed "
+        "(both_observed); the paper examples (Shpitser-Pearl "
         "fig. 9, Tikka fig. 2) and all past witnesses first; a malformed stream (cyclic graph, event variable outside "
         "the graph). Every case is run under every iteration order of the worlds. A case is non-trivial when the event "
         "has >= 2 conjuncts, at least one counterfactual world, the graph has an edge, and the construction merged at "
@@ -137,11 +141,172 @@ def two_copies_case(rng: random.Random):
     return {"g": {"nodes": nodes, "di": di, "bi": bi}, "event": K.sort_event(ev2), "seed": rng.randrange(1 << 30)}
 
 
+def world_family_case(rng: random.Random):
+    """structured shape: 2-3 counterfactual worlds that agree on an intervention do(A = a) on an ancestor A of V and differ only in
+    interventions on variables that are NOT ancestors of V: the copies V@w_i are the same random variable as each other but (A not being
+    observed at a) NOT the same as the factual V, so they merge with each other in the world-pair loop, not in the factual loop.  The
+    event mentions V in two of the worlds (equal or different values) and something else in the third, so that a value reaches a
+    kept copy only through an earlier relabelling."""
+    k = rng.choice([2, 3, 3])
+    a, v_ = 0, 1
+    nodes, di, bi = [a, v_], [], []
+    nxt = 2
+    mid = None
+    if rng.random() < 0.35:      # A -> M -> V
+        mid = nxt
+        nxt += 1
+        nodes.append(mid)
+        di += [[a, mid], [mid, v_]]
+    else:
+        di.append([a, v_])
+    irr = []
+    for _ in range(k):
+        irr.append(nxt)
+        nodes.append(nxt)
+        r = rng.random()
+        if r < 0.35:
+            di.append([v_, nxt])         # a child of V
+        elif r < 0.5:
+            di.append([a, nxt])          # another child of A
+        nxt += 1
+    y = None
+    if rng.random() < 0.4:
+        y = nxt
+        nxt += 1
+        nodes.append(y)
+        di.append([v_, y])
+    for p in nodes:
+        for q in nodes:
+            if p < q and rng.random() < 0.1:
+                bi.append([p, q])
+    sa = rng.choice(["m", "p"])
+    worlds = []
+    for i in range(k):
+        w = [(a, sa if rng.random() < 0.9 else ("p" if sa == "m" else "m")), (irr[i], rng.choice(["m", "p"]))]
+        if rng.random() < 0.15:
+            w = w[:1] if not any(x == tuple(w[:1]) for x in worlds) else w
+        worlds.append(tuple(sorted(w)))
+    worlds = list(dict.fromkeys(worlds))
+    val = rng.choice(["m", "p"])
+    other = "p" if val == "m" else "m"
+    ev = []
+    order = list(range(len(worlds)))
+    rng.shuffle(order)
+    carriers = order[:2]
+    for j, wi in enumerate(order):
+        w = worlds[wi]
+        if wi in carriers:
+            ev.append([K.mkvar(v_, w), val if (j == 0 or rng.random() < 0.5) else other])
+            if y is not None and rng.random() < 0.5:
+                ev.append([K.mkvar(y, w), rng.choice(["m", "p"])])
+        else:
+            t = rng.choice([x for x in ([y] if y is not None else []) + irr + ([mid] if mid is not None else []) if x not in {n for n, _ in w}] or [v_])
+            ev.append([K.mkvar(t, w), rng.choice(["m", "p"])])
+    if rng.random() < 0.2:
+        ev.append([K.mkvar(a), sa if rng.random() < 0.7 else ("p" if sa == "m" else "m")])
+    if rng.random() < 0.15:
+        ev.append([K.mkvar(v_), rng.choice(["m", "p"])])
+    seen, ev2 = set(), []
+    for var, x in ev:
+        if C.enc(var) not in seen:
+            seen.add(C.enc(var))
+            ev2.append([var, x])
+    rng.shuffle(nodes)
+    return {"g": {"nodes": nodes, "di": di, "bi": bi}, "event": K.sort_event(ev2), "seed": rng.randrange(1 << 30)}
+
+
+def mirrored_parent_case(rng: random.Random):
+    """structured shape (the mirrored case of Lemma 24's parent test, second copy observed / first copy intervened): Y has the parents X
+    and Z; world w1 = do(X = s, Z = t), world w2 = do(Z = t) [+ an irrelevant intervention]; the FACTUAL X is observed (no bidirected
+    edge at X), so X@w2 merges into it and Y@w2 keeps the observed parent X while Y@w1 has the intervened parent X@w1: Y@w1 and Y@w2
+    are the same variable iff the observed value of X is s (and Z is forced to the same value in both worlds)."""
+    x, z, y = 0, 1, 2
+    nodes, di, bi = [x, z, y], [[x, y], [z, y]], []
+    nxt = 3
+    extra = {}
+    for name, p in (("a", 0.3), ("c", 0.4), ("q", 0.4)):
+        if rng.random() < p:
+            extra[name] = nxt
+            nodes.append(nxt)
+            nxt += 1
+    if "a" in extra:
+        di.append([extra["a"], x])
+    if "c" in extra:
+        di.append([y, extra["c"]])
+    if "q" in extra and rng.random() < 0.5:
+        di.append([y, extra["q"]])
+    for p in nodes:
+        for q in nodes:
+            if p < q and x not in (p, q) and rng.random() < 0.12:
+                bi.append([p, q])
+    s = rng.choice(["m", "p"])
+    o = "p" if s == "m" else "m"
+    sz = rng.choice(["m", "p"])
+    w1 = [(x, s), (z, sz)]
+    w2 = [(z, sz if rng.random() < 0.85 else ("p" if sz == "m" else "m"))]
+    if "q" in extra and rng.random() < 0.6:
+        w2.append((extra["q"], rng.choice(["m", "p"])))
+    ev = [[K.mkvar(x), s if rng.random() < 0.6 else o]]
+    t = extra["c"] if "c" in extra and rng.random() < 0.4 else y
+    v1 = rng.choice(["m", "p"])
+    ev.append([K.mkvar(t, w1), v1])
+    ev.append([K.mkvar(t, w2), v1 if rng.random() < 0.5 else ("p" if v1 == "m" else "m")])
+    if "a" in extra and rng.random() < 0.3:
+        ev.append([K.mkvar(extra["a"]), rng.choice(["m", "p"])])
+    rng.shuffle(nodes)
+    return {"g": {"nodes": nodes, "di": di, "bi": bi}, "event": K.sort_event(ev), "seed": rng.randrange(1 << 30)}
+
+
+def both_observed_case(rng: random.Random):
+    """structured shape: a parent X of Y whose two copies (factual and X@w, or X@w1 and X@w2; w = do(Z) with Z a parent of X, so the copies
+    do NOT merge) are BOTH in the event, with equal or different values; Y's copies in the same two worlds are in the event as well: they
+    are the same variable iff the two observed values of X are equal (and Y's other parents agree)."""
+    z, x, y = 0, 1, 2
+    nodes, di, bi = [z, x, y], [[z, x], [x, y]], []
+    nxt = 3
+    p2 = c = None
+    if rng.random() < 0.35:       # a second parent of Y, untouched by the worlds
+        p2 = nxt
+        nxt += 1
+        nodes.append(p2)
+        di.append([p2, y])
+    if rng.random() < 0.35:
+        c = nxt
+        nxt += 1
+        nodes.append(c)
+        di.append([y, c])
+    for p in nodes:
+        for q in nodes:
+            if p < q and rng.random() < 0.1 and (p, q) != (z, x):
+                bi.append([p, q])
+    s = rng.choice(["m", "p"])
+    o = "p" if s == "m" else "m"
+    if rng.random() < 0.7:
+        wa, wb = (), ((z, s),)
+    else:
+        wa, wb = ((z, s),), ((z, o),)
+    vx = rng.choice(["m", "p"])
+    ev = [[K.mkvar(x, wa), vx], [K.mkvar(x, wb), vx if rng.random() < 0.55 else ("p" if vx == "m" else "m")]]
+    t = c if c is not None and rng.random() < 0.4 else y
+    vy = rng.choice(["m", "p"])
+    if rng.random() < 0.8:
+        ev.append([K.mkvar(t, wa), vy])
+    ev.append([K.mkvar(t, wb), vy if rng.random() < 0.5 else ("p" if vy == "m" else "m")])
+    if p2 is not None and rng.random() < 0.3:
+        ev.append([K.mkvar(p2), rng.choice(["m", "p"])])
+    rng.shuffle(nodes)
+    return {"g": {"nodes": nodes, "di": di, "bi": bi}, "event": K.sort_event(ev), "seed": rng.randrange(1 << 30)}
+
+
 def cases(rng: random.Random, tier: str):
     out = [dict(c, seed=1000 + i) for i, c in enumerate(CORPUS)]
     out += K.load_corpus("C18")
     out += [shared_parent_case(rng) for _ in range(150 if tier == "quick" else 600)]
     out += [two_copies_case(rng) for _ in range(150 if tier == "quick" else 600)]
+    # shapes that the mutation campaign C (tools/mutants_C.md) showed the random stream does not produce often enough
+    out += [world_family_case(rng) for _ in range(150 if tier == "quick" else 600)]
+    out += [mirrored_parent_case(rng) for _ in range(120 if tier == "quick" else 500)]
+    out += [both_observed_case(rng) for _ in range(120 if tier == "quick" else 500)]
     n = 2500 if tier == "quick" else 9000
     for _ in range(n):
         big = rng.random() < (0.15 if tier == "quick" else 0.3)
